@@ -7,7 +7,7 @@ class KotlinCompiler(BaseCompiler):
     ERROR_REGEX = re.compile(
         r'([a-zA-Z0-9\/_]+.kt):\d+:\d+:[ ]+error:[ ]+(.*)')
     CRASH_REGEX = re.compile(
-        r'(org\.jetbrains\..*)\n(.*)',
+        r'(org\.jetbrains\..*)\n(\s+at .*)',
         re.MULTILINE
     )
 
